@@ -8,6 +8,7 @@ import (
 	"crypto/sha1"
 	"fmt"
 	"go/types"
+	"mime"
 	"os"
 	"unsafe"
 
@@ -510,6 +511,11 @@ func init() {
 	// error); only callers that do not look at the text may rely on it
 	reg("encoding/json.Marshal", func(fr *frame, args []value) value {
 		return tuple{strBytes("{}"), iface{}}
+	})
+
+	// the MIME table is host state behind sync.Map: looked up natively on the concrete extension
+	reg("mime.TypeByExtension", func(fr *frame, args []value) value {
+		return mime.TypeByExtension(concStr(fr, args[0], "mime.TypeByExtension"))
 	})
 
 	// go:linkname pull
